@@ -37,10 +37,14 @@ def key(sid):
 def main():
     full = "--full" in sys.argv
     ids = [a for a in sys.argv[1:] if not a.startswith("--")]
+    explicit = bool(ids)
     if not ids:
         ids = sorted((d for d in os.listdir(os.path.join(ROOT, "seeded")) if os.path.isdir(os.path.join(ROOT, "seeded", d)) and "-" in d), key=key)
-    out_path = os.path.join(ROOT, "seeded", "RESULTS.jsonl")
+    vs = os.environ.get("VERIF_SEED", "1") or "1"
+    out_path = os.path.join(ROOT, "seeded", "RESULTS.jsonl" if vs == "1" else "RESULTS.seed%s.jsonl" % vs)    # VERIF_SEED is passed on to the checks
     lines = []
+    if explicit and os.path.exists(out_path):          # explicit ids: update those lines only
+        lines = [json.loads(l) for l in open(out_path) if json.loads(l)["id"] not in ids]
     for sid in ids:
         d = os.path.join(ROOT, "seeded", sid)
         meta = json.load(open(os.path.join(d, "meta.json")))
@@ -59,6 +63,7 @@ def main():
                "checks": {q: {"rc": v["rc"], "first_problem": v["first_problem"]} for q, v in res["props"].items()}}
         lines.append(rec)
         print("%s required=%s demo=%s/%s caught_by=%s" % (sid, rec["required"], rec["demo_clean_rc"], rec["demo_patched_rc"], rec["caught_by"]), flush=True)
+        lines.sort(key=lambda r: key(r["id"]))
         with open(out_path, "w") as f:
             for r in lines:
                 f.write(json.dumps(r, sort_keys=True) + "\n")
